@@ -427,6 +427,7 @@ def run(rep, tier, seed, only=None):
     rep.outside = ["right-connect with a repeated other_connectors entry (docstring does not define it)",
                    "calls rejected with CircuitValidationError/CreateBlockError (not counted; they do not return normally)",
                    "block extraction when two inputs of the attached circuit were identified with one base gate"]
+    rep.bounds['histories'] = 'per accepted call: copy then rename in the copy; named block dropped then the same name attached again; block made from the circuit own inputs/outputs lists then the call'
     rep.rule = "program = (base, attached, call); every kept output and every gate compared with the reference composition by z3 over all inputs"
     rep.explanation = "translation validation of each composition call"
     rep.pmap(unit, [seed * 131 + s for s in range(192 if thorough else 64)])
